@@ -45,6 +45,138 @@ def read_all(path, pid_of):
         st._engine.dispose()
 
 
+def _locked_database(ctx, out, rng):
+    """another connection holds the write lock while a mutation commits: the mutation either raises (and changes nothing)
+    or, if it returns normally, its effect is there for everybody else"""
+    import sqlite3
+    from sqlalchemy import create_engine, event
+    from vakt.policy import Policy
+    for op in ('add', 'update', 'delete') * ctx.budget(1, 6):
+        d = tempfile.mkdtemp(prefix='vakt-c15-lock-')
+        path = os.path.join(d, 'db.sqlite')
+        try:
+            engine = create_engine('sqlite:///' + path, connect_args={'timeout': 0.05})
+
+            @event.listens_for(engine, 'connect')
+            def _on_connect(dbapi_con, _rec):
+                dbapi_con.execute('PRAGMA foreign_keys=ON')
+            Base.metadata.create_all(engine)
+            w = SQLStorage(scoped_session(sessionmaker(bind=engine)))
+            old = Policy('u', actions=['get'], subjects=['s'], resources=['r'], effect='allow', description='old')
+            new = Policy('u', actions=['put', 'get'], subjects=['s2'], resources=['r'], effect='deny', description='new')
+            if op != 'add':
+                w.add(old)
+            if rng.random() < 0.5:
+                w.get('u')                 # the writer's session has read before (a transaction may be open)
+            keys = {}
+
+            def pid_of(p):
+                return keys.setdefault(polcase.policy_key(p), len(keys))
+            before = read_all(path, pid_of)
+            locker = sqlite3.connect(path, timeout=0, isolation_level=None)
+            locker.execute('BEGIN IMMEDIATE')
+            try:
+                try:
+                    getattr(w, op)('u' if op == 'delete' else new)
+                    outcome = 'returned'
+                except Exception as e:
+                    outcome = 'raised %s' % type(e).__name__
+            finally:
+                locker.execute('ROLLBACK')
+                locker.close()
+            after = read_all(path, pid_of)
+            want = {'add': ['%s:%d' % (proto.enc_str('u'), pid_of(new))], 'update': ['%s:%d' % (proto.enc_str('u'), pid_of(new))],
+                    'delete': []}[op]
+            out.evaluations += 1
+            out.count('locked:%s:%s' % (op, outcome.split(' ')[0]))
+            desc = {'scenario': 'another connection holds the write lock (BEGIN IMMEDIATE) while %s() runs' % op,
+                    'outcome': outcome, 'seen_before': before, 'seen_after_the_lock_was_released': after}
+            prob = None
+            if outcome == 'returned' and after != want:
+                prob = '%s() returned normally but another session does not see its effect' % op
+            elif outcome != 'returned' and after != before:
+                prob = '%s() raised yet the database changed' % op
+            if prob:
+                f = Failure('oracle', desc, outcome, None, prob, 'Vakt.C15.op_committed_and_clean / other_session_sees')
+                f.signature = 'locked:' + op
+                out.failures.append(f)
+            w.session.remove()
+            engine.dispose()
+        finally:
+            shutil.rmtree(d, ignore_errors=True)
+
+
+def _finalizer_placement(ctx, out, rng):
+    """an abandoned, half-consumed listing (get_all / find_for_inquiry / retrieve_all) is finalised by the garbage
+    collector at an arbitrary later moment - possibly in the middle of a mutation.  The moment is enumerated: the listing
+    is put into a reference cycle and the collector's threshold is set so that the collection happens after t more
+    container allocations, for a range of t.  Whatever the moment, a mutation that returns normally is committed whole."""
+    import gc
+    from vakt.policy import Policy
+    from vakt.guard import Inquiry
+    from vakt.checker import RegexChecker
+    old_thr = gc.get_threshold()
+    ts = list(range(1, 40)) + list(range(40, 700, 7)) if ctx.tier == 'thorough' else sorted(rng.sample(range(1, 500), 45))
+    d = tempfile.mkdtemp(prefix='vakt-c15-gc-')
+    try:
+        for n, t in enumerate(ts):
+            path = os.path.join(d, 'db%d.sqlite' % n)
+            w = open_storage(path)
+            keys = {}
+
+            def pid_of(p):
+                return keys.setdefault(polcase.policy_key(p), len(keys))
+            old = Policy('u', actions=['get'], subjects=['s'], resources=['r'], effect='allow', description='old')
+            other = Policy('v', actions=['x'], subjects=['y'], resources=['z'], effect='deny', description='other')
+            new = Policy('u', actions=['put', 'get'], subjects=['s2', 's3'], resources=['r2'], effect='deny', description='new')
+            w.add(old)
+            w.add(other)
+            op = pick(rng, ['update', 'update', 'add', 'delete'])
+            arg = {'update': new, 'add': Policy('n', actions=['a'], subjects=['b'], resources=['c'], description='n'),
+                   'delete': 'v'}[op]
+            want = {'update': [new, other], 'add': [old, other, arg], 'delete': [old]}[op]
+            gc.collect()
+            gc.disable()
+            try:
+                kind = pick(rng, ['get_all', 'find', 'retrieve_all'])
+                it = iter(w.get_all(5, 0) if kind == 'get_all' else
+                          w.find_for_inquiry(Inquiry(action='get', subject='s', resource='r'), RegexChecker())
+                          if kind == 'find' else w.retrieve_all(1))
+                next(it, None)                    # half consumed ...
+                cyc = [it]
+                cyc.append(cyc)                   # ... and abandoned inside a reference cycle
+                del it, cyc
+                gc.set_threshold(t, 10 ** 6, 10 ** 6)
+                gc.enable()
+                try:
+                    getattr(w, op)(arg)
+                    outcome = 'returned'
+                except Exception as e:
+                    outcome = 'raised %s' % type(e).__name__
+            finally:
+                gc.set_threshold(*old_thr)
+                gc.enable()
+            seen = read_all(path, pid_of)
+            wanted = sorted('%s:%d' % (proto.enc_str(p.uid), pid_of(p)) for p in want)
+            out.evaluations += 1
+            out.count('gc-placement:%s:%s' % (op, outcome.split(' ')[0]))
+            if outcome == 'returned' and seen != wanted:
+                f = Failure('oracle', {'scenario': 'a half-consumed %s listing is finalised by the garbage collector %d container '
+                                       'allocations into %s()' % (kind, t, op), 'outcome': outcome,
+                                       'another_session_sees': seen, 'expected': wanted}, seen, None,
+                            '%s() returned normally but another session sees neither the old nor the new state of the policy'
+                            % op, 'Vakt.C15.op_committed_and_clean')
+                f.signature = 'gc-placement:' + op
+                out.failures.append(f)
+                break
+            w.session.remove()
+            w._engine.dispose()
+    finally:
+        gc.set_threshold(*old_thr)
+        gc.enable()
+        shutil.rmtree(d, ignore_errors=True)
+
+
 CHILD = r'''
 import sys, pickle
 sys.path.insert(0, %r); sys.path.insert(0, %r)
@@ -214,6 +346,8 @@ def run(ctx):
         out.nontriv(line)
         if len(out.samples) < 3 and any('crash' in h for h in desc['history']) and ('rejected' in outs or 'exists' in outs):
             out.samples.append({'history': desc['history'][:10], 'outcomes': outs[:8], 'fresh_session_sees': states[:4]})
+    _locked_database(ctx, out, rng)
+    _finalizer_placement(ctx, out, rng)
     out.rule = ('histories of 3-%d add / update / delete on a file-backed SQLite database through one long-lived writer '
                 'session (duplicate adds, updates of absent uids, updates that fail half-way on a malformed later field, '
                 'reads on the writer session in between); after EVERY operation a fresh engine + session reads the whole '
